@@ -7,7 +7,8 @@
     After every op all tasks run until stalled, so an op is atomic. Hyper's per-connection behaviour
     is an *assumption*, recorded here as rules and validated by the correspondence run:
     an HTTP/1 connection serves one request at a time; after `graceful_shutdown` it finishes the
-    exchange it has started reading (even a partial head) and then closes; an idle one closes at once;
+    exchange under way (a running handler, or the partly received head of its first request) and then
+    closes; an idle one – also one that has only part of a *further* request's head – closes at once;
     garbage is answered by closing; a still-sniffing auto connection is closed by the cancel. -/
 namespace Hd.Server
 
@@ -80,7 +81,10 @@ def gracefulConn (c : Client) : Client :=
   if !c.srvOpen then c
   else if c.h2 then { c with graceful := true }
   else if c.sniffing then closeServerSide c                      -- `ReadVersion::cancel`
-  else if c.inHandler || c.halfHead then { c with graceful := true }
+  -- an exchange is under way: a handler is running, or the head of the connection's FIRST request is being
+  -- read. (Between requests hyper's HTTP/1 connection is in its keep-alive idle state even if part of the
+  -- next head has already arrived: it then closes like any idle connection.)
+  else if c.inHandler || (c.halfHead && c.hc == 0) then { c with graceful := true }
   else closeServerSide c                                         -- idle keep-alive connection
 
 /-- The serving future has ended. On the shutdown signal `GracefulShutdown::poll` closes the watch
